@@ -740,7 +740,7 @@ fn run_word_here(prop: &str, cfg: Cfg, word: &[Op], keys: &[u8], o: Oracles, tra
                     }).collect()
                 };
                 if ent(b0, &base_files) != ent(d1, &files) {
-                    viol.push(("C02:index-changed-by-reopen".into(), format!("reopen #{} changed the index", t + 1), Some(word.len() + t)));
+                    viol.push((format!("{}:index-changed-by-reopen", prop), format!("reopen #{} changed the index", t + 1), Some(word.len() + t)));
                 }
             }
             // the only directory change is one new empty data file
@@ -749,7 +749,7 @@ fn run_word_here(prop: &str, cfg: Cfg, word: &[Op], keys: &[u8], o: Oracles, tra
             let changed: Vec<&String> = files.iter().filter(|(n, b)| prev_files.get(*n).map_or(false, |o| o != *b)).map(|(n, _)| n).collect();
             let ok = gone.is_empty() && changed.is_empty() && new.len() == 1 && new[0].ends_with(".data") && files[new[0]].is_empty();
             if !ok {
-                viol.push(("C02:reopen-changed-directory".into(), format!("reopen #{}: new {:?}, gone {:?}, changed {:?}", t + 1, new, gone, changed), Some(word.len() + t)));
+                viol.push((format!("{}:reopen-changed-directory", prop), format!("reopen #{}: new {:?}, gone {:?}, changed {:?}", t + 1, new, gone, changed), Some(word.len() + t)));
             }
             if o.c14 {
                 check_dir_invariants(&cfg, &prev_files, &files, &mut viol, word.len() + t);
@@ -883,6 +883,11 @@ pub fn plan(prop: &str, tier: Tier, seeds: &[u64]) -> Vec<Sweep> {
         }
         v
     };
+    // quick tier of the three large word spaces: depth 5 on the configurations where rollover and
+    // subset selection interact (file sizes 0 and 60; ALL, DEAD, SIZE27), depth 4 on the rest
+    let hot = core_grid(seeds, &[Thr::All, Thr::Dead, Thr::Size27], &[0, 60]);
+    let mut rest = core_grid(seeds, &all_thr, &mfss);
+    rest.retain(|c| !hot.contains(c));
     let mut sweeps = vec![];
     let mut deep = |name: &str, alphabet: Vec<Op>, dq: usize, dt: usize, cfgs: Vec<Cfg>, oracles: Oracles, trailing: usize| {
         sweeps.push(Sweep { name: format!("{}-depth{}", name, dq), alphabet: alphabet.clone(), depth: dq, cfgs: cfgs.clone(), oracles, keys: main_keys.clone(), trailing_reopens: trailing });
@@ -906,7 +911,12 @@ pub fn plan(prop: &str, tier: Tier, seeds: &[u64]) -> Vec<Sweep> {
             sweeps.push(Sweep { name: "many-files".into(), alphabet: vec![SET_A1, SET_A22, DEL_A, Op::Reopen], depth: tier.pick(7, 9), cfgs: core_grid(&seeds[..1], &[Thr::None], &[0]), oracles: o, keys: main_keys.clone(), trailing_reopens: 2 });
         }
         "C05" => {
-            deep("core", full.clone(), 5, 6, core_grid(seeds, &all_thr, &mfss), kv, 0);
+            if tier == Tier::Quick {
+                deep("hot", full.clone(), 5, 5, hot.clone(), kv, 0);
+                deep("rest", full.clone(), 4, 4, rest.clone(), kv, 0);
+            } else {
+                deep("core", full.clone(), 5, 6, core_grid(seeds, &all_thr, &mfss), kv, 0);
+            }
             sweeps.push(Sweep { name: "cache-conc".into(), alphabet: full.clone(), depth: 4, cfgs: cache_conc_grid(seeds[0], Thr::Size27), oracles: kv, keys: main_keys.clone(), trailing_reopens: 0 });
             sweeps.push(Sweep { name: "wide".into(), alphabet: wide_ops(true, true), depth: tier.pick(2, 3), cfgs: core_grid(&seeds[..1], &[Thr::All, Thr::Size27], &[0, 60]), oracles: kv, keys: wide_keys.clone(), trailing_reopens: 0 });
         }
@@ -916,7 +926,12 @@ pub fn plan(prop: &str, tier: Tier, seeds: &[u64]) -> Vec<Sweep> {
         }
         "C13" => {
             let o = Oracles { c13: true, ..Default::default() };
-            deep("core", full.clone(), 5, 6, core_grid(seeds, &all_thr, &mfss), o, 0);
+            if tier == Tier::Quick {
+                deep("hot", full.clone(), 5, 5, hot.clone(), o, 0);
+                deep("rest", full.clone(), 4, 4, rest.clone(), o, 0);
+            } else {
+                deep("core", full.clone(), 5, 6, core_grid(seeds, &all_thr, &mfss), o, 0);
+            }
         }
         "C14" => {
             let o = Oracles { c14: true, reopen_stable: true, ..Default::default() };
@@ -924,7 +939,12 @@ pub fn plan(prop: &str, tier: Tier, seeds: &[u64]) -> Vec<Sweep> {
         }
         "C19" => {
             let o = Oracles { c19: true, ..Default::default() };
-            deep("core", full.clone(), 5, 6, core_grid(seeds, &all_thr, &mfss), o, 0);
+            if tier == Tier::Quick {
+                deep("hot", full.clone(), 5, 5, hot.clone(), o, 0);
+                deep("rest", full.clone(), 4, 4, rest.clone(), o, 0);
+            } else {
+                deep("core", full.clone(), 5, 6, core_grid(seeds, &all_thr, &mfss), o, 0);
+            }
         }
         _ => panic!("no E1 plan for {}", prop),
     }
